@@ -21,7 +21,9 @@ import (
 	"errors"
 	"fmt"
 	"reflect"
+	"sync/atomic"
 	"testing"
+	"time"
 
 	"github.com/pion/rtp"
 	"pgregory.net/rapid"
@@ -62,6 +64,13 @@ type vfC29Op struct {
 	PadVia  int       `json:"pad_via,omitempty"`  // writertp: 0 both PaddingSize fields, 1 Header.PaddingSize only, 2 Packet.PaddingSize only
 	PadFill bool      `json:"pad_fill,omitempty"` // write: padding octets carry non-zero filler
 	Trunc   int       `json:"trunc,omitempty"`    // write: cut that many bytes off the end (may make it unparseable)
+	// writertp, harness-owned schedule: while the fan-out is inside its HookAt-th per-binding write
+	// (mod live count), a second goroutine calls Unbind for live binding #Victim (mod live count; the
+	// next one if that is the binding being written); the writer waits until that Unbind returned or a
+	// short bounded time elapsed, then lets the fan-out continue.
+	Hook   bool `json:"hook,omitempty"`
+	HookAt int  `json:"hook_at,omitempty"`
+	Victim int  `json:"victim,omitempty"`
 }
 
 type vfC29Case struct {
@@ -163,17 +172,72 @@ type vfC29Delivery struct {
 	ssrc    uint32
 	pt      uint8
 	rawCall bool
+	// the harness had already seen this binding's Unbind RETURN when this per-binding write began
+	afterUnbindReturned bool
 }
+
+// vfC29Sched is the state of one harness-owned schedule (one hooked WriteRTP call).
+type vfC29Sched struct {
+	at       int // ordinal of the per-binding write during which the Unbind is started
+	calls    int // per-binding writes seen so far in this call
+	fired    bool
+	victim   *vfC29Binding
+	unbind   func() error
+	returned atomic.Bool // set after victim's Unbind returned
+	done     chan struct{}
+	err      error
+	timedOut bool
+}
+
+// vfC29Shared is shared by all writers of one track; sched is non-nil only during a hooked call.
+type vfC29Shared struct{ sched *vfC29Sched }
+
+// how long a writer waits for the concurrent Unbind; on the unchanged code Unbind cannot return
+// before the fan-out ends, so this elapses quietly.  It selects the schedule, never a verdict.
+const vfC29HookWait = 3 * time.Millisecond
 
 type vfC29Writer struct {
 	id   string
 	fail bool
 	got  []vfC29Delivery
+	sh   *vfC29Shared
+}
+
+// enter is called at the start of every per-binding write; it returns whether this binding's
+// Unbind had already returned.
+func (w *vfC29Writer) enter() bool {
+	if w.sh == nil || w.sh.sched == nil {
+		return false
+	}
+	sc := w.sh.sched
+	after := sc.victim != nil && sc.victim.writer == w && sc.returned.Load()
+	ord := sc.calls
+	sc.calls++
+	if !sc.fired && ord >= sc.at && sc.victim.writer != w {
+		sc.fired = true
+		go func() {
+			sc.err = sc.unbind()
+			sc.returned.Store(true)
+			close(sc.done)
+		}()
+		select {
+		case <-sc.done:
+		case <-time.After(vfC29HookWait):
+			sc.timedOut = true
+		}
+	}
+	return after
 }
 
 var errVfC29Writer = errors.New("vfC29: injected writer failure")
 
 func (w *vfC29Writer) WriteRTP(h *rtp.Header, payload []byte) (int, error) {
+	after := w.enter()
+	defer func() {
+		if after && len(w.got) > 0 {
+			w.got[len(w.got)-1].afterUnbindReturned = true
+		}
+	}()
 	if h.Padding && h.PaddingSize == 0 {
 		// pion/rtp cannot serialise this (it would index before the buffer's end marker): the
 		// padding count the caller supplied was lost on the way to the binding
@@ -232,6 +296,7 @@ func vfC29Run(v *vfT, c vfC29Case) {
 	var live []*vfC29Binding    // in creation order
 	var removed []*vfC29Binding // unbound (their writers must stay silent)
 	var rejected []*vfC29Binding
+	shared := &vfC29Shared{}
 	nextID := 0
 	writes, maxLive, unbindsWithOthers := 0, 0, 0
 
@@ -308,7 +373,7 @@ func vfC29Run(v *vfT, c vfC29Case) {
 				b.id = fmt.Sprintf("b%d", nextID)
 				nextID++
 			}
-			b.writer = &vfC29Writer{id: b.id, fail: op.Fail}
+			b.writer = &vfC29Writer{id: b.id, fail: op.Fail, sh: shared}
 			b.ctx = &baseTrackLocalContext{
 				id: b.id, ssrc: SSRC(b.ssrc), writeStream: b.writer,
 				params: RTPParameters{Codecs: vfC29Codecs(op.CodecPos, b.pt)},
@@ -376,8 +441,63 @@ func vfC29Run(v *vfT, c vfC29Case) {
 			if pkt.Raw == nil {
 				before.Raw = nil
 			}
+			var sched *vfC29Sched
+			if op.Hook && len(live) >= 2 {
+				victim := live[op.Victim%len(live)]
+				sched = &vfC29Sched{at: op.HookAt % (len(live) - 1), victim: victim, done: make(chan struct{})}
+				sched.unbind = func() error { return track.Unbind(victim.ctx) }
+				shared.sched = sched
+			}
 			_ = track.WriteRTP(pkt)
 			writes++
+			if sched != nil {
+				// join the concurrent Unbind (on the unchanged code it can only finish now)
+				shared.sched = nil
+				if !sched.fired {
+					v.Label("schedule:not-fired")
+				} else {
+					select {
+					case <-sched.done:
+					case <-time.After(30 * time.Second):
+						v.Skip("watchdog: concurrent Unbind never returned")
+					}
+					if sched.timedOut {
+						v.Label("schedule:unbind-blocked-until-fan-out-ended")
+					} else {
+						v.Label("schedule:unbind-returned-during-fan-out")
+					}
+					if sched.err != nil {
+						v.Violation("C29/unbind-failed/concurrent", "op %d: Unbind of live binding %s, called while a WriteRTP fan-out was in progress, failed: %v", opi, sched.victim.id, sched.err)
+					}
+					// the removed binding: at most once, and nothing once its Unbind had returned
+					vb := sched.victim
+					for _, d := range vb.writer.got {
+						if d.afterUnbindReturned {
+							v.Violation("C29/delivery-after-unbind/concurrent", "op %d: binding %s received the packet in a per-binding write that began after its Unbind had returned (live=%d, %d deliveries to it in this call)",
+								opi, vb.id, len(live), len(vb.writer.got))
+						}
+					}
+					if len(vb.writer.got) > 1 {
+						v.Violation("C29/delivery-count/concurrent", "op %d: binding %s, unbound during the fan-out, received the packet %d times in one WriteRTP call", opi, vb.id, len(vb.writer.got))
+					}
+					if len(vb.writer.got) == 1 {
+						if d := vb.writer.got[0]; d.err == nil && !bytes.Equal(d.wire, vfC29Wire(op.Pkt, vb.ssrc, vb.pt, false)) {
+							v.Violation("C29/rewrite/concurrent", "op %d: binding %s (ssrc %d pt %d), unbound during the fan-out, got\n  %x", opi, vb.id, vb.ssrc, vb.pt, d.wire)
+						}
+					}
+					vb.writer.got = nil
+					for k := range live {
+						if live[k] == vb {
+							live = append(live[:k:k], live[k+1:]...)
+							break
+						}
+					}
+					removed = append(removed, vb)
+					if len(live) > 0 {
+						unbindsWithOthers++
+					}
+				}
+			}
 			if !reflect.DeepEqual(before, pkt) {
 				v.Violation("C29/caller-packet-modified/WriteRTP", "op %d: caller's packet changed by WriteRTP:\n before %+v\n after  %+v", opi, before, pkt)
 			}
@@ -481,6 +601,7 @@ func vfC29GenPkt(v *vfT) *vfC29Pkt {
 func vfC29Gen(v *vfT) vfC29Case {
 	n := rapid.IntRange(1, 40).Draw(v.R, "nops")
 	var c vfC29Case
+	hooksLeft := rapid.SampledFrom([]int{0, 0, 1, 1, 2}).Draw(v.R, "hooks") // each hooked write costs the bounded wait
 	for i := 0; i < n; i++ {
 		var op vfC29Op
 		kind := rapid.SampledFrom([]string{"bind", "bind", "bind", "unbind", "unbind", "writertp", "writertp", "writertp", "write", "write", "unbind-unknown"}).Draw(v.R, "op")
@@ -505,6 +626,12 @@ func vfC29Gen(v *vfT) vfC29Case {
 		case "writertp":
 			op.Pkt = vfC29GenPkt(v)
 			op.PadVia = rapid.IntRange(0, 2).Draw(v.R, "padvia")
+			if hooksLeft > 0 && rapid.IntRange(0, 3).Draw(v.R, "hook?") == 0 {
+				hooksLeft--
+				op.Hook = true
+				op.HookAt = rapid.IntRange(0, 3).Draw(v.R, "hookAt")
+				op.Victim = rapid.IntRange(0, 4).Draw(v.R, "victim")
+			}
 		case "write":
 			op.Pkt = vfC29GenPkt(v)
 			op.PadFill = rapid.Bool().Draw(v.R, "padfill")
@@ -525,6 +652,7 @@ func TestVerif_C29_Histories(t *testing.T) {
 			"a packet is well formed: padding flag set iff the padding count is non-zero; one-byte extension ids 1..14 with 1..16 bytes, two-byte ids 1..255 with 0..255 bytes",
 			"what a binding 'receives' is the serialisation rtp.MarshalPacketTo(header, payload) that pion's own senders produce from the writer's arguments; padding octets other than the count are not significant",
 			"a truncated buffer passed to Write is a packet only if pion/rtp parses it; then the expectation is pion/rtp's own re-serialisation",
+			"harness-owned schedule (some WriteRTP ops): a second goroutine calls Unbind of another live binding while the fan-out is inside one binding's writer, which waits 3 ms or until that Unbind returned (the wait only selects the schedule). Oracle for that call: the unbound binding receives the packet at most once and never in a per-binding write that began after its Unbind had returned; every other live binding exactly once",
 		},
 	}, vfC29Gen, vfC29Run)
 }
